@@ -19,7 +19,8 @@ import (
 
 var zzLockOps = []string{"Define", "DefineGlobal", "Set", "Get", "Delete", "DeleteGlobal", "GetValueSymbols",
 	"NewEnv", "NewModule", "Addr", "String", "DefineType", "DefineGlobalType", "Type", "GetTypeSymbols",
-	"Copy", "DeepCopy", "GetEnvFromPath", "GetEnvFromPath2", "GetEnvFromPath3", "DefineValue", "SetValue", "GetValue", "DefineReflectType"}
+	"Copy", "DeepCopy", "GetEnvFromPath", "GetEnvFromPath2", "GetEnvFromPath3", "DefineValue", "SetValue", "GetValue", "DefineReflectType", "SetExternalLookup"}
+
 
 func zzLockOp(e *Env, op int, name string, v int64) {
 	switch zzLockOps[op] {
@@ -71,6 +72,8 @@ func zzLockOp(e *Env, op int, name string, v int64) {
 		e.GetValue(name)
 	case "DefineReflectType":
 		e.DefineReflectType(name, reflect.TypeOf(v))
+	case "SetExternalLookup":
+		e.SetExternalLookup(&zzExt{})
 	}
 }
 
@@ -108,7 +111,7 @@ func zzLockDiscipline(w *zzWorld, op, t int, name string) {
 	opName := zzLockOps[op]
 	if zz.Symbolic() {
 		for _, e := range w.real {
-			zz.Guard(&e.rwMutex, &e.values, &e.types)
+			zz.Guard(&e.rwMutex, &e.values, &e.types, &e.externalLookup)
 		}
 		zzLockOp(w.real[t], op, name, v)
 		zz.Assert(zz.Events("lock-discipline") == 0, "C13.D1.lock-discipline/"+opName)
@@ -139,6 +142,7 @@ func zzLockDiscipline(w *zzWorld, op, t int, name string) {
 				e.Define("a", int64(1))
 				e.DefineType("a", int64(1))
 				e.Delete("a")
+				e.SetExternalLookup(&zzExt{})
 			}()
 		}
 		zzLockOp(w2.real[1], op, name, v)
